@@ -42,6 +42,19 @@ type Attr struct {
 	Scalar    bool
 	Raw       []byte
 	Note      string
+	Type      *Datatype
+	// version and flags of the attribute message (flags bit 0: shared datatype, bit 1: shared dataspace)
+	MsgVersion, MsgFlags int
+	resolve              func() ([][]byte, string)
+}
+
+// VLen resolves the elements of a variable-length attribute through the global heap (on
+// demand: the walk itself does not follow attribute heap references).
+func (a *Attr) VLen() ([][]byte, string) {
+	if a.resolve == nil {
+		return nil, "not-variable-length"
+	}
+	return a.resolve()
 }
 
 type Object struct {
